@@ -40,6 +40,9 @@ func registerVerifAPI(e *Engine) {
 	})
 	v("Choose", func(in *Interp, fr *frame, fn *ssa.Function, a []Val) Val {
 		n := in.concInt(a[0])
+		if n <= 1 {
+			return in.ctx.Const(64, 0) // natively Choose(n<=1) consumes no input
+		}
 		k := in.Choose(int(n))
 		in.inputs = append(in.inputs, Input{Kind: "choose", Conc: int64(k), Label: "choose"})
 		return in.ctx.Const(64, uint64(k))
